@@ -58,6 +58,8 @@ func HarnessClientAPI() {
 	}
 	specs := []spec{}
 	methods := []*sourcedef_j5pb.APIMethod{}
+	enumPathParam := ndBool("enumTypedPathParameter")
+	usesRegion := false
 	for i := 0; i < nMethods; i++ {
 		sp := spec{name: []string{"GetThing", "PutOther"}[i], verb: ndChoice("verb", len(verbs)), response: ndBool("response")}
 		nPath := ndIntRange("pathParams", 0, 2)
@@ -72,7 +74,13 @@ func HarnessClientAPI() {
 			used[pn] = true
 			sp.path = append(sp.path, pn)
 			path += "/:" + pn
-			props = append(props, &schema_j5pb.ObjectProperty{Name: pn, Schema: verifStringField(), Required: true})
+			sch := verifStringField()
+			if k == 0 && enumPathParam {
+				// an enum that nothing else refers to
+				sch = &schema_j5pb.Field{Type: &schema_j5pb.Field_Enum{Enum: &schema_j5pb.EnumField{Schema: &schema_j5pb.EnumField_Ref{Ref: &schema_j5pb.Ref{Schema: "Region"}}}}}
+				usesRegion = true
+			}
+			props = append(props, &schema_j5pb.ObjectProperty{Name: pn, Schema: sch, Required: true})
 		}
 		nRest := ndIntRange("otherProps", 0, 2)
 		for k := 0; k < nRest; k++ {
@@ -94,7 +102,8 @@ func HarnessClientAPI() {
 	svcName := "Widget"
 	base := "/a/v1"
 	src := &sourcedef_j5pb.SourceFile{Path: "a/v1/x.j5s", Package: &sourcedef_j5pb.Package{Name: "a.v1"},
-		Elements: []*sourcedef_j5pb.RootElement{{Type: &sourcedef_j5pb.RootElement_Service{Service: &sourcedef_j5pb.Service{Name: &svcName, BasePath: &base, Methods: methods}}}}}
+		Elements: []*sourcedef_j5pb.RootElement{{Type: &sourcedef_j5pb.RootElement_Service{Service: &sourcedef_j5pb.Service{Name: &svcName, BasePath: &base, Methods: methods}}},
+			{Type: &sourcedef_j5pb.RootElement_Enum{Enum: &schema_j5pb.Enum{Name: "Region", Options: []*schema_j5pb.Enum_Option{{Name: "NORTH"}, {Name: "SOUTH"}}}}}}}
 	summary, err := j5convert.SourceSummary(src, verifWarn{})
 	if err != nil {
 		verifFail("valid-service-summarised")
@@ -144,7 +153,16 @@ func HarnessClientAPI() {
 		}
 		sub.Schemas[string(msgs.Get(i).Name())] = root.ToJ5Root()
 	}
-	api := &source_j5pb.API{Packages: []*source_j5pb.Package{{Name: "a.v1", Schemas: map[string]*schema_j5pb.RootSchema{}, SubPackages: []*source_j5pb.SubPackage{sub}}}}
+	rootSchemas := map[string]*schema_j5pb.RootSchema{}
+	// what the request/response messages refer to in the root package (the enum)
+	if rootPkg, ok := j5schema.VerifCachePackages(cache)["a.v1"]; ok {
+		for name, ref := range rootPkg.Schemas {
+			if ref.To != nil {
+				rootSchemas[name] = ref.To.ToJ5Root()
+			}
+		}
+	}
+	api := &source_j5pb.API{Packages: []*source_j5pb.Package{{Name: "a.v1", Schemas: rootSchemas, SubPackages: []*source_j5pb.SubPackage{sub}}}}
 	client, err := APIFromSource(api)
 	verifAssert(err == nil, "client-api-built")
 	if err != nil {
@@ -153,6 +171,12 @@ func HarnessClientAPI() {
 	verifAssert(len(client.Packages) == 1 && len(client.Packages[0].Services) == 1, "exactly-the-declared-service")
 	if len(client.Packages) != 1 || len(client.Packages[0].Services) != 1 {
 		return
+	}
+	// every schema reachable from a method is in the client package
+	if usesRegion {
+		_, has := client.Packages[0].Schemas["a.v1.Region"]
+		_, hasShort := client.Packages[0].Schemas["Region"]
+		verifAssert(has || hasShort, "schema-reachable-only-through-a-path-parameter-is-present")
 	}
 	cs := client.Packages[0].Services[0]
 	verifAssert(cs.Name == "WidgetService", "service-name")
